@@ -66,6 +66,13 @@ def body(kind, mod=None, fn=None, path=None, kw=None, set_store=True):
             r = dds.eval(getattr(m, fn))
         elif kind == "load":
             r = dds.load(path)
+        elif kind == "load_twice":
+            # one long-lived process loads the path, looks at a marker file (visible in the trace), and loads it again
+            import os
+            from .vfs import VROOT
+            a = dds.load(path)
+            os.path.exists(os.path.join(VROOT, "second_load_starts"))
+            r = a + "|" + dds.load(path)
         elif kind == "create":
             r = None
         else:
